@@ -1066,6 +1066,20 @@ func evalFunctionApplication(node *jparse.FunctionApplicationNode, data reflect.
 	// hand side using the left hand side as the argument.
 	f1, ok := jtypes.AsCallable(lhs)
 	if !ok {
+		// As in a function call, the function is told its name
+		// and the evaluation context (on a copy, see evalFunctionCall).
+		f2 = copyCallable(f2)
+
+		if setter, ok := f2.(nameSetter); ok {
+			if sym, ok := node.RHS.(*jparse.VariableNode); ok {
+				setter.SetName(sym.Name)
+			}
+		}
+
+		if setter, ok := f2.(contextSetter); ok {
+			setter.SetContext(data)
+		}
+
 		return f2.Call([]reflect.Value{lhs})
 	}
 
